@@ -48,6 +48,19 @@ pub(crate) fn needs_backup(file: &Path, conf: &Config) -> Result<bool> {
     Ok(need)
 }
 
+// The path that a file called `<name>.~N~` is (or would be taken
+// for) a numbered backup of.
+pub(crate) fn backup_stem(path: &Path) -> Option<PathBuf> {
+    let name = path.file_name()?.as_bytes();
+    let inner = name.strip_suffix(b"~")?;
+    let pos = inner.windows(2).rposition(|w| w == b".~")?;
+    std::str::from_utf8(&inner[pos + 2..]).ok()?.parse::<u64>().ok()?;
+    if pos == 0 {
+        return None;
+    }
+    Some(path.with_file_name(OsStr::from_bytes(&name[..pos])))
+}
+
 fn ls_file_dir(file: &Path) -> Result<ReadDir> {
     let cwd = current_dir()?;
     let ls_dir = file.parent()
